@@ -751,3 +751,101 @@ def pool_identity_gap(F):
     if not found:
         return None
     return used, hashed, exempt
+
+
+def user_override_findings(F):
+    """config::User repeats some settings of config::Pool as Option<..> (pool_mode, connect_timeout, idle_timeout, server_lifetime): the user's value
+    wins, the pool's is the fallback. from_config is where that precedence is applied. For every such pair of namesakes: wherever the pool-level
+    field flows into what a pool is built with (PoolSettings / ConnectionPool, ServerPool::new, the bb8 builder), the user's field flows in as well.
+    Returns [(field, ok, sinks)]"""
+    fc = F.body("pgcat::pool::ConnectionPool::from_config::{closure#0}")
+    ua = F.adts.get("pgcat::config::User")
+    pa = F.adts.get("pgcat::config::Pool")
+    if fc is None or ua is None or pa is None:
+        return None
+    uf = {f["name"]: f["ty"] for f in ua["variants"][0]["fields"]}
+    pf = {f["name"] for f in pa["variants"][0]["fields"]}
+    shared = sorted(n for n, ty in uf.items() if n in pf and "Option<" in ty)
+    sinks = []
+    for bb, blk, st in list(F.aggregates("pgcat::pool::PoolSettings")) + list(F.aggregates("pgcat::pool::ConnectionPool")):
+        if bb is fc:
+            for f, op in zip(st["rv"]["fields"], st["rv"]["ops"]):
+                sinks.append(("%s.%s" % (st["rv"]["adt"].split("::")[-1], f), op))
+    for c in fc.calls("pgcat::pool::ServerPool::new", "re:^bb8::api::Builder"):
+        for k, a in enumerate(c.args):
+            sinks.append(("%s#%d" % (c.name.split("::")[-1], k), a))
+
+    def flows(op):
+        """names of (struct, field) config fields the operand derives from: ('User', x) / ('Pool', x)"""
+        out = set()
+        for o in origins(fc, op, taint=True):
+            if o.kind in ("place", "param") and isinstance(o.what, int):
+                ty = fc.locals[o.what]["ty"] if o.what < len(fc.locals) else ""
+                fs = [p_[1:] for p_ in o.proj if isinstance(p_, str) and p_.startswith(".") and not p_[1:].isdigit()]
+                if fs and "config::User" in ty:
+                    out.add(("User", fs[0]))
+                if fs and "config::Pool" in ty:
+                    out.add(("Pool", fs[0]))
+        return out
+    res = []
+    for n in shared:
+        hit = [(nm, flows(op)) for nm, op in sinks]
+        pool_sinks = [nm for nm, fl in hit if ("Pool", n) in fl]
+        bad = [nm for nm, fl in hit if ("Pool", n) in fl and ("User", n) not in fl]
+        res.append((n, bool(pool_sinks) and not bad, pool_sinks, bad))
+    return res
+
+
+def recv_handout_findings(F):
+    """Server::recv hands a reply out in pieces; `data_available` tells the caller whether more of this reply is to come. recv leaves its read loop
+    before ReadyForQuery only in the arms of messages after which more data is flagged (DataRow, CopyOutResponse, CopyData of a flagged COPY OUT) or
+    the server waits for the client (CopyInResponse); only 'Z' / 'G' clear the flag; only recv writes it. An early hand-out anywhere else (a
+    NoticeResponse arm that `breaks` at 8 KiB, say) returns a piece with the flag false: the caller takes it for the whole reply, the clean-up finds
+    nothing to do and the connection goes back to the pool with the rest unread. Returns [(key, ok|None, okmsg, failmsg)]"""
+    RECV = "pgcat::server::Server::recv::{closure#0}"
+    rc = F.body(RECV)
+    out = []
+    _chk = lambda ok, key, okmsg, failmsg, *a: out.append((key, bool(ok), okmsg, failmsg + ((" [" + str(a[1]) + "]") if len(a) > 1 and a[1] else "")))
+    if rc is None:
+        return [("recv-arms", None, "", "Server::recv")]
+    code_sw = [sw for sw in switches(rc) if sw.ty in ("char", "u8", "u32") and any(v == 90 for v, _ in sw.targets) and any(v == 68 for v, _ in sw.targets)]
+    if not code_sw:
+        out.append(("recv-arms", None, "", "message-code switch in recv"))
+        return out
+    else:
+        arms = {v: t for v, t in code_sw[0].targets}
+        clr = [(blk, st) for blk, i, st in rc.assigns() if proj_fields(st["lhs"])[-1:] == ["data_available"] and st["rv"]["k"] == "use" and const_int(st["rv"]["op"]) == 0]
+        sets = [(blk, st) for blk, i, st in rc.assigns() if proj_fields(st["lhs"])[-1:] == ["data_available"] and st["rv"]["k"] == "use" and const_int(st["rv"]["op"]) == 1]
+        # ReadyForQuery ends a reply; CopyInResponse ('G') also ends what the server has to say for now - it waits for the client
+        enders = [arms[c_] for c_ in (90, 71) if c_ in arms]
+        _chk(bool(clr) and all(any(rc.dominates(a_, blk) for a_ in enders) for blk, st in clr), "only-Z-clears", "data_available is cleared only in the ReadyForQuery ('Z') and CopyInResponse ('G') arms", "data_available is cleared outside the 'Z' / 'G' arms: the reply would be cut at that message")
+        if 71 in arms:
+            garm = {b_ for b_ in range(rc.nblocks) if rc.dominates(arms[71], b_)}
+            succ_g = rc.succ("n")
+            exits_g = sorted({v for u in garm for v in succ_g[u] if v not in garm})
+            wg = rc.uncrossed_path([arms[71]], exits_g, blocks=[blk for blk, st in clr])
+            _chk(wg is None, "G-clears", "CopyInResponse clears data_available (the server waits for the client now)",
+                     "the CopyInResponse arm leaves data_available as an earlier message of the same reply set it: after `SELECT 1; COPY t FROM STDIN` the receive loop asks the server for more while the server waits for the client's "
+                     "CopyData, which nobody reads - both sides hang (with statement_timeout the server is banned)", "", wg and rc.describe_path(wg))
+        for code, nm in ((68, "DataRow"), (72, "CopyOutResponse")):
+            okc = code in arms and any(rc.dominates(arms[code], blk) for blk, st in sets)
+            _chk(okc, "sets:%s" % nm, "%s sets data_available before the chunk is handed out" % nm, "%s no longer sets data_available (a reply flushed at the 8 KiB threshold would end the forward loop)" % nm)
+        # early hand-out: recv leaves its read loop before ReadyForQuery only inside the arms of messages after which either more
+        # data is flagged (DataRow / CopyOutResponse / CopyData within a flagged COPY OUT) or the server waits for the client (CopyInResponse)
+        rl = [hd for hd in loop_headers(rc) if any(c.block in natural_loop(rc, hd) for c in rc.calls("pgcat::messages::read_message"))]
+        if rl:
+            lp = natural_loop(rc, max(rl, key=lambda x: len(natural_loop(rc, x))))
+            okb_ = [blk for blk, i, st in rc.assigns() if st["lhs"]["l"] == 0 and st["rv"]["k"] == "agg" and st["rv"].get("variant") == "Ok"]
+            exits_ = {(u, v) for u in lp for v in rc.succ("n")[u] if v not in lp and not rc.blocks[v]["cleanup"] and rc.blocks[v]["term"]["k"] != "unreachable" and (rc.reach([v]) & set(okb_))}
+            allowed_arms = {90: "Z", 68: "D", 71: "G", 72: "H", 100: "d"}
+            badx = []
+            for (u, v) in sorted(exits_):
+                if u == code_sw[0].block and v in {arms[c_] for c_ in allowed_arms if c_ in arms}:
+                    continue  # the arm itself leaves the loop (e.g. CopyInResponse: break)
+                if not any(code in arms and rc.dominates(arms[code], u) for code in allowed_arms):
+                    badx.append(u)
+            _chk(bool(exits_) and not badx, "early-handout-arms", "recv hands out a partial reply only from the Z / D / H / G / d arms (%d exits)" % len(exits_),
+                     "recv can return before ReadyForQuery from a place that is not tied to DataRow/Copy messages (bb%s): with data_available still false the caller stops reading and the client gets a truncated reply without ReadyForQuery" % badx[:3])
+        others = sorted({b_.name for b_, blk, st in F.field_writes(lambda f, b_, st: f == "data_available") if b_.name != RECV})
+        _chk(not others, "flag-writers", "only Server::recv writes data_available", "data_available written by %s" % others)
+    return out
